@@ -122,6 +122,30 @@ L['C13'] = dict(modules=['Schc.Properties.C13'], level='proof', technique='Lean 
               T('C13_hash', 'full', 'equal Buffers hash alike (the hashed key is a function of the bits alone)'),
               T('C13_dict', 'full', 'dict lookup through any equal key'), T('C13_mapping_lookup', 'full', 'match-mapping lookups succeed across padding sides')],
     level_text='Proved for all bit strings of any length on both sides: the byte-level model of __eq__ (length test, re-pad copy through the carry loops of _shift_left/_shift_right, content compare) and of __hash__ is bit equality / a function of the bits. Python dicts are modelled as association lists looked up by hash-then-eq; 64-bit hash collisions between different contents are abstracted away (DESIGN.md §7).')
+
+L['C05'] = dict(modules=['Schc.Properties.C05'], level='proof', technique='Lean 4 refinement of the byte-level Buffer model (constructor, __iter__, __getitem__, __setitem__, all nine __add__ branches, pad, copy) to bit lists',
+    theorems=[T('C05_canonical_form', 'full', 'ofABuf is canonical: minimal content length, zero padding bits on the declared side'),
+              T('C05_ctor', 'full', 'constructor normalises ANY byte content to the canonical Buffer of the bits it denotes'),
+              T('C05_iter', 'full', 'iteration yields the bits'), T('C05_length', 'full', 'length'), T('C05_copy', 'full', 'copy'),
+              T('C05_getitem_range', 'full', 'b[s:e] for all 0<=s<=e<=len, both sides, every alignment'),
+              T('C05_getitem_slice', 'full', 'optional / negative / over-long bounds resolved as slice.indices'),
+              T('C05_slice_clamp', 'full', 'a stop beyond the length is clamped'),
+              T('C05_getitem_bit', 'full', 'b[i]'),
+              T('C05_add', 'full', 'a + b for all operand pairs, all four side combinations, every alignment; operands unchanged'),
+              T('C05_pad', 'full', 'pad(side, inplace) both modes'),
+              T('C05_setitem', 'full', 'b[s:e] = v'),
+              T('C05_add_then_slice', 'full', 'composition: slicing a concatenation at the seam')],
+    level_text='Proved for bit strings of EVERY length, both padding sides of every operand, all cut points: each operation of the byte-level model of buffer.py (same loops, masks, carries, bytes() range checks, IndexError) applied to canonical Buffers returns the canonical Buffer of the list operation, and the operand post-states are the operands. The byte-level model is tied to buffer.py by the buf stream (every op, every byte of content/length/padding/padding_length and operand post-state compared) and the inplace flags are read from the source by the translator. Not modelled: start > stop slices (negative length) and step slices, which the property excludes.')
+
+L['C06'] = dict(modules=['Schc.Properties.C06'], level='proof', technique='Lean 4 refinement of the byte-level Buffer model (_shift_left/_shift_right, & | ^ ~, value, chunks) to bit lists',
+    theorems=[T('C06_shift', 'full', 'shift(s, inplace) for every integer s, both sides, both modes'),
+              T('C06_shift_left_bits', 'full', 'left shift appends zeros'), T('C06_shift_right_bits', 'full', 'right shift drops the last bits'),
+              T('C06_shift_right_all', 'full', 's >= length leaves the empty Buffer'),
+              T('C06_and', 'full', '& over equal lengths, ValueError otherwise; right operand unchanged'), T('C06_or', 'full', '|'), T('C06_xor', 'full', '^'),
+              T('C06_invert', 'full', '~'), T('C06_value', 'full', 'value() is the big-endian integer; operand unchanged'),
+              T('C06_chunks', 'full', 'chunks(n, padding) for every n >= 1'), T('C06_chunks_pieces', 'full', 'closed form of the pieces'),
+              T('C06_chunks_zero', 'full', 'chunks(0) raises')],
+    level_text='Proved for bit strings of every length, both sides, every shift amount (any integer) and every chunk size. Tie as for C05. Python ints are unbounded Nat in the model (exact).')
 for k in L:
     L[k]['level_note'] = NOTE
     L[k]['design_ref'] = 'DESIGN.md §6 ' + k
